@@ -180,7 +180,7 @@ class Ctx:
                                timeout=timeout, cwd=self.work)
         except subprocess.TimeoutExpired:
             raise Broken("driver timed out: %s" % " ".join(map(str, args)))
-        if p.returncode == 2 and ("fatal error:" in p.stderr or "panic:" in p.stderr) and "gkvlite." in p.stderr:
+        if p.returncode == 2 and ("fatal error:" in p.stderr or "panic:" in p.stderr) and crashed_in_library(p.stderr):
             # the Go runtime killed the process inside the library (stack
             # overflow through a corrupted tree, concurrent map fault, ...):
             # that is an outcome of the run, not a broken check.  The trace is
@@ -289,6 +289,22 @@ class Ctx:
         print("OK property=%s tier=%s states=%d traces=%d events=%d wall=%.0fs" %
               (self.prop, self.tier, states, self.traces, self.events, wall))
         return 0
+
+
+def crashed_in_library(stderr):
+    """True if the goroutine that brought the process down was executing
+    gkvlite code: its first non-runtime frame belongs to the library."""
+    lines = stderr.splitlines()
+    for i, l in enumerate(lines):
+        if l.startswith("goroutine ") and "[running]" in l:
+            for f in lines[i + 1:i + 60]:
+                if not f.strip():
+                    break
+                if f.startswith("\t") or f.startswith("runtime.") or f.startswith("sync.") or f.startswith("panic("):
+                    continue
+                return "cbehopkins/gkvlite." in f
+            return False
+    return False
 
 
 _known = None
